@@ -492,5 +492,5 @@ def obligations(tier, known):
 CLAIM = ("Within the bounds, for every existence pattern, -I order, directive form and -D choice the real resolver returns what the "
          "compiler rule prescribes regardless of earlier look-ups, and per-line attribution of every file equals the reference "
          "preprocessor's (include-once, guards, forced and computed includes, macro state at the point of inclusion).")
-LEVEL_NOTE = ("Trusted: CrossHair/z3, vp/memfs.py, vp/refs/ref_cpp.py (confirmed against gcc -E on replay). Bounded: 8 scenario "
+LEVEL_NOTE = ("Trusted: CrossHair/z3, vp/memfs.py, vp/refs/ref_cpp.py (confirmed against gcc -E on replay). Bounded: 13 scenario "
               "templates, <= 4 directories, depth <= 3; -iquote/-idirafter/#include_next are outside.")
